@@ -109,17 +109,24 @@ func (a *Arena) Check() (ok bool, name string, rel int) {
 
 // Guard reports whether addr lies in a guard page of a live allocation, and which.
 func (a *Arena) Guard(addr uintptr) (hit bool, name string, side string) {
+	hit, name, side, _ = a.GuardDist(addr)
+	return
+}
+
+// GuardDist is Guard plus the distance in bytes from the nearest accessible byte
+// (1 = the first byte of the guard page), which unlike the address is reproducible.
+func (a *Arena) GuardDist(addr uintptr) (hit bool, name string, side string, dist int) {
 	for _, al := range a.live {
 		b := uintptr(unsafe.Pointer(&al.reg.base[0]))
 		total := uintptr((al.reg.pages + 2) * page)
 		switch {
 		case addr >= b && addr < b+page:
-			return true, al.Name, "before"
+			return true, al.Name, "before", int(b + page - addr)
 		case addr >= b+total-page && addr < b+total:
-			return true, al.Name, "after"
+			return true, al.Name, "after", int(addr-(b+total-page)) + 1
 		}
 	}
-	return false, "", ""
+	return false, "", "", 0
 }
 
 // Reset returns all live regions to the free pool.
